@@ -197,7 +197,7 @@ class ScriptedRequestor(Peer):
     """Peer playing the association requestor against a real AE (acceptor)."""
 
     def __init__(self, sim, net, addr, contexts, max_length=16384, called='SRV', calling='CLI',
-                 script=None, extra_user=(), app_context=rc.APP_CONTEXT):
+                 script=None, extra_user=(), app_context=rc.APP_CONTEXT, before_rq=None):
         sock = net.socket()
         Peer.__init__(self, sim, sock, 'requestor-peer')
         self.net = net
@@ -214,6 +214,7 @@ class ScriptedRequestor(Peer):
         self.extra_user = extra_user
         self.app_context = app_context
         self.connect_error = None
+        self.before_rq = before_rq
 
     def send_message(self, pcid, fields, data=None, max_length=None, per_pdu=1, groups=None):
         cmd = rc.enc_command(fields)
@@ -250,6 +251,8 @@ class ScriptedRequestor(Peer):
         except OSError as e:
             self.connect_error = e
             return None
+        if self.before_rq is not None:
+            self.before_rq()        # connected, nothing sent yet
         self.send(rc.enc_assoc_rq(called=self.called, calling=self.calling,
                                   contexts=self.contexts, max_length=self.max_length,
                                   extra_user=self.extra_user, app_context=self.app_context))
